@@ -202,7 +202,10 @@ def apply_unified_diff(sources, diff_text):
             continue
         mod = m.group(1)
         if mod not in out:
-            return None
+            if re.search(r"^--- /dev/null$", f, flags=re.M):
+                out[mod] = ""           # a file the patch creates
+            else:
+                return None
         lines = out[mod].split("\n")
         hunks = re.split(r"^@@ ", f, flags=re.M)[1:]
         offset = 0
